@@ -53,6 +53,10 @@ type c03Case struct {
 	Wrap int `json:"wrap,omitempty"`
 	// Bulk > 0: that many QoS 1 messages for the OFFLINE durable session, then a reconnect that acknowledges everything
 	Bulk int `json:"bulk,omitempty"`
+	// Tail > 0: that many QoS 1 messages on ONE connection, all acknowledged at once, then THREE more that are not; the
+	//           connection ends and the session comes back: the three are sent again in the order in which they were sent
+	//           (whatever the connection has counted up to by then)
+	Tail int `json:"tail,omitempty"`
 	// AckOrder: run the verif hook of package connection (the identifier freed by an acknowledgement is reused at once)
 	AckOrder bool `json:"ackorder,omitempty"`
 	// Over: the durable session begins by TAKING OVER a connected clean session of the same client id: from the CONNACK
@@ -298,6 +302,9 @@ func (p *c03Prop) runLong(c *c03Case) *c03Obs {
 	}
 	pa := pc.Auto(false)
 	n := c.Wrap + c.Bulk
+	if c.Tail > 0 {
+		n = c.Tail + 3
+	}
 	publish := func() {
 		for k := 0; k < n; k++ {
 			pl := []byte{byte(k >> 24), byte(k >> 16), byte(k >> 8), byte(k)}
@@ -348,6 +355,45 @@ func (p *c03Prop) runLong(c *c03Case) *c03Obs {
 			}
 		}
 		return
+	}
+	if c.Tail > 0 {
+		go publish()
+		// the first Tail messages are acknowledged as they come, the last three are only read
+		if _, got := consume(sc, c.Tail, -1); got < c.Tail {
+			obs.Err = fmt.Sprintf("tail: only %d of %d messages arrived", got, c.Tail)
+			return obs
+		}
+		for k := 0; k < 3; k++ {
+			if pk, err := sc.Recv(5 * time.Second); err != nil || pk.Type() != mqttp.PUBLISH {
+				obs.Err = "tail: the last three messages did not arrive"
+				return obs
+			}
+		}
+		d0 := b.Met.Disconnected()
+		sc.Close()
+		deadline := time.Now().Add(5 * time.Second)
+		for time.Now().Before(deadline) && b.Met.Disconnected() == d0 {
+			time.Sleep(time.Millisecond)
+		}
+		sc2, err := connectS()
+		if err != nil {
+			obs.Err = "S: reconnect: " + err.Error()
+			return obs
+		}
+		for k := 0; k < 3; k++ {
+			pk, err := sc2.Recv(5 * time.Second)
+			if err != nil {
+				break
+			}
+			if m, ok := pk.(*mqttp.Publish); ok {
+				if pl := m.Payload(); len(pl) == 4 && m.Dup() {
+					obs.Items = append(obs.Items, [2]int{int(uint32(pl[0])<<24 | uint32(pl[1])<<16 | uint32(pl[2])<<8 | uint32(pl[3])), 0})
+				}
+				id, _ := m.ID()
+				_ = sc2.Send(mkAck(ver, mqttp.PUBACK, uint16(id)))
+			}
+		}
+		return obs
 	}
 	if c.Wrap > 0 {
 		go publish()
@@ -416,7 +462,7 @@ func (p *c03Prop) Run(ci interface{}) interface{} {
 	if c.AckOrder {
 		return p.runAckOrder()
 	}
-	if c.Wrap > 0 || c.Bulk > 0 {
+	if c.Wrap > 0 || c.Bulk > 0 || c.Tail > 0 {
 		return p.runLong(c)
 	}
 	obs := &c03Obs{}
@@ -951,6 +997,12 @@ func (p *c03Prop) Coq(ci interface{}, oi interface{}) string {
 			}
 		}
 		extra = fmt.Sprintf("(Some (XWrap %s))", cList(it))
+	} else if c.Tail > 0 {
+		ks := make([]string, len(o.Items))
+		for i, x := range o.Items {
+			ks[i] = fmt.Sprintf("%d%%Z", x[0])
+		}
+		extra = fmt.Sprintf("(Some (XTail %d%%Z %s))", c.Tail, cList(ks))
 	} else if c.Bulk > 0 {
 		extra = fmt.Sprintf("(Some (XBulk %d%%Z %d%%Z))", c.Bulk, o.Got)
 	} else if c.AckOrder && o.Ack != nil {
@@ -968,6 +1020,9 @@ func (p *c03Prop) Class(ci interface{}, oi interface{}) (string, bool) {
 	}
 	if c.Bulk > 0 {
 		return "bulk-offline-backlog", true
+	}
+	if c.Tail > 0 {
+		return "unacknowledged-tail-of-a-long-connection", true
 	}
 	if c.AckOrder {
 		return "ack-frees-identifier-reused-at-once (hook)", true
